@@ -36,15 +36,27 @@ P = {'id': 'C03',
               'dictzip_standins_lawful',
               'plain_id_wraparound_refuted',
               'stack_refines_spec',
-              'stack_history_refines_spec'],
+              'stack_history_refines_spec',
+              'batch_builder_equals_builder',
+              'batch_get_record',
+              'batch_absent',
+              'nltb_get_by_key',
+              'nltb_get_by_id',
+              'nltb_standin_lawful',
+              'mem_from_data_history_refines_spec',
+              'mem_from_data_ids_fresh',
+              'zero_finish_history_refines_spec'],
  'trusted': ['modelled (M+S): src/blob_store/memory.rs; mixed_len.rs (bitmap rank as count_occ-style spec rank, UintVecMin0 offsets at value level); '
              'zip_offset_builder.rs + zip_offset.rs + sorted_uint_vec.rs (bit-exact file image compared on every run); simple_zip.rs (fragmenting and the string pool); '
              'zero_length.rs; plain.rs (directory as a finite map, decimal file names, u32 parsing, close + reopen); traits.rs as a record of nine functions; '
              'compressed.rs ZstdBlobStore, entropy.rs Huffman framing / Rans / Dictionary pass-through as one generic wrapper over an arbitrary inner store and codec; '
              'cached_store.rs over an arbitrary inner store and an arbitrary page cache that never invents data; dict_zip/blob_store.rs bookkeeping over an arbitrary '
-             'compressor, entropy stage and LRU map with the round-trip laws; every wrapper stack by composition',
-             'spec-only cells (direct oracle against a shadow map, no mechanism model): NestLoudsTrieBlobStore (4 presets, builder, keyed API), ZipOffsetBlobStore with zstd '
-             '(theorem with zstd as a parameter, no evaluated image), BatchZipOffsetBlobStoreBuilder, ZeroLengthBlobStore::finish, MemoryBlobStore::from_data and its serde image',
+             'compressor, entropy stage and LRU map with the round-trip laws; every wrapper stack by composition; '
+             'zip_offset_builder.rs BatchZipOffsetBlobStoreBuilder (batch buffer, lengths, flush loop; byte-exact image on every run); '
+             'nest_louds_trie_blob_store.rs NestLoudsTrieBlobStoreBuilder + the put_with_key / get_by_key / get path it drives, over an arbitrary lawful trie '
+             '(slice::sort_by by its specification: a stable sort); MemoryBlobStore::from_data and ZeroLengthBlobStore::finish(n) as the start of a history',
+             'spec-only cells (direct oracle against a shadow map, no mechanism model): NestLoudsTrieBlobStore histories (4 presets, keyed API on a live store, build_from_* constructors), '
+             'ZipOffsetBlobStore and its batch builder with zstd (theorems with zstd as a parameter, no evaluated image), the serde image of MemoryBlobStore',
              'zstd, the page cache, the LRU map, the trie, PA-Zip and the entropy coders are opaque (properties C01, C02, C05, C17): parameters of the theorems under their '
              'round-trip laws; in the evaluated cases zstd and the Huffman coder are the finite table of (input, output) pairs observed between two layers of the real stack, '
              'DictZip and the page cache use the stand-ins of their model files (the theorems say the observations do not depend on them)'],
@@ -57,7 +69,9 @@ P = {'id': 'C03',
                'close + reopen), of every wrapper (Zstd, Huffman framing, Rans/Dictionary pass-through) over any inner store and any lossless codec, of CachedBlobStore over '
                'any inner store and any page cache that never invents data, and of DictZipBlobStore over any compressor with the round-trip law, refines the property\'s own '
                'state machine (one generic simulation theorem, instances by composition); bulk-built MixedLen, ZipOffset and SimpleZip stores return record i = input i for '
-               'every input and configuration; ids are never reused for a live record below 2^32-1 issued ids, with refutation witnesses for the counter wrap-around of '
+               'every input and configuration; the batch builder equals the plain builder for every batch size and every interleaving of add_record / flush_batch; the trie '
+               'store\'s builder returns, over any lawful trie and whether or not it sorts, the value added last under every key; a store seeded by from_data refines the '
+               'machine started from the map; ids are never reused for a live record below 2^32-1 issued ids, with refutation witnesses for the counter wrap-around of '
                'MemoryBlobStore and PlainBlobStore. The models are tied to the code by replaying generated histories of whole store stacks in Coq on every run. '
                'The remaining store types are decided by a history-based differential oracle only, labelled S-only.',
  'level_note': 'Trusted: Coq kernel + vm_compute; hand-written models; harness generators and shadow-map oracle. HashMap and directories are abstracted as association lists; '
@@ -66,4 +80,4 @@ P = {'id': 'C03',
               'lifted to every history by induction; wrapper and cache theorems generic in the inner store; list-decomposition proofs for bulk-built stores; '
               'model/implementation differential check by vm_compute on whole stacks; history-based differential oracle over every store type and wrapper stack',
  'explanation': 'Unbounded refinement theorems for Memory, ZeroLength, Plain (with reopen), all wrapper stores, CachedBlobStore and the DictZip bookkeeping; record-i theorems for '
-                'MixedLen, ZipOffset and SimpleZip; bit-exact / observation-exact model correspondence on every run; differential oracle for the rest.'}
+                'MixedLen, ZipOffset (plain and batch builder) and SimpleZip; last-value-wins theorem for the trie store\'s builder; from_data histories; bit-exact / observation-exact model correspondence on every run; differential oracle for the rest.'}
